@@ -140,6 +140,17 @@ func BigShape(r *rand.Rand, minRank, maxElems int) []int {
 // different code path (blocked / pairwise / parallel loops): 128, 256, 512, 1024, 2048, 4096.
 var LongSizes = []int{127, 128, 129, 130, 131, 255, 256, 257, 258, 511, 512, 513, 1000, 1001, 1023, 1024, 1025, 2047, 2048, 2049, 4095, 4096, 4097}
 
+// deeperBounds widens the sampled families for the thorough tier: sizes around 2^13..2^16, ranks up to 8.
+var maxSampledRank = 6
+
+func deeperBounds(thorough bool) {
+	if !thorough || maxSampledRank > 6 {
+		return
+	}
+	maxSampledRank = 8
+	LongSizes = append(LongSizes, 8191, 8192, 8193, 16383, 16385, 32767, 32769, 65535, 65537)
+}
+
 // LongShape: rank 1..maxRank with exactly one long dimension (from LongSizes, at most maxLong) and the others in 1..3.
 func LongShape(r *rand.Rand, maxRank, maxLong int) (shape []int, longDim int) {
 	for {
